@@ -296,7 +296,7 @@ func pinnedHistory(idx int, g *wsclient.Gen, seed int64) *history {
 	case 0: // close with a live subscription: closeSubscriptions must log Unsubscribe
 		return &history{Name: "close-with-live-subscription", Cfg: cfg, EndByClose: true, Steps: []wsclient.Step{
 			{Kind: "sub", ID: "a", Tag: "t1", Query: q("t1", "n res"), Wait: true},
-			{Kind: "sync"},
+			{Kind: "echo", ID: "e1", Wait: true, PauseUS: 3000},
 			{Kind: "close", Wait: true},
 		}}
 	case 1: // mutate whose id equals a live subscription id
